@@ -244,4 +244,8 @@ def run(ctx):
     from .shared import log_id_account
     if not log_id_account(ctx, R5, only={c.LW + "internal::selection::build_recipient_output"}):
         run.error("C07.R5: build_recipient_output no longer draws a log id and saves an entry (anchor missing)")
+    R6 = "C07.R6"
+    run.rule(R6, "a receive into the account the slate's deliverer names takes its key from that account's own counter (a key index the destination account has used already would overwrite its record: an existing output changes status and value)", floor=1)
+    from .shared import next_child_one_account
+    next_child_one_account(ctx, R6)
     run.not_decided += ["'spendable balance never decreases' as a number", "that complete_tx's signature checks reject every forged reply (cryptographic)"]
